@@ -54,6 +54,24 @@ Theorem C29_passwd_new_password_opens : forall master st cur newid pw maxk,
   exists id m, search_key st' pw maxk false [] = SFound id m.
 Proof. exact passwd_new_password_opens. Qed.
 
+(* The verification of a new key (SearchKey with the new password, hint = new key) can succeed through
+   ANOTHER key with the same password when the new key file is unreadable.  Whatever the listing
+   order and whichever files are readable: the key in use is not removed, or key passwd removes it
+   and a readable key with the new password (not the removed one) stays; and the key the session
+   then uses was created with the new password. *)
+Theorem C29_verification_never_locks_out : forall listing cur newid c,
+  newid <> cur ->
+  let ops := cmd_ops_listing listing cur newid c in
+  (~ In (KRemove cur) ops) \/
+  (exists pw k, c = CPasswd pw /\ In k listing /\ k_good k = true /\ k_pw k = pw /\ k_id k <> cur /\
+                ~ In (KRemove (k_id k)) ops).
+Proof. exact listing_verification_never_locks_out. Qed.
+
+Theorem C29_verification_sound : forall listing pw newid f m,
+  search_key listing pw 0 true [newid] = SFound f m ->
+  exists k, In k listing /\ k_id k = f /\ k_pw k = pw /\ k_good k = true.
+Proof. exact listing_verification_sound. Qed.
+
 (* the oracles mean the property *)
 Theorem C29_search_oracle_sound : forall c,
   check_search c = true -> all_good (s_keys c) = true ->
@@ -88,6 +106,8 @@ Print Assumptions C29_current_not_removable.
 Print Assumptions C29_remove_keeps_current.
 Print Assumptions C29_same_master.
 Print Assumptions C29_passwd_new_password_opens.
+Print Assumptions C29_verification_never_locks_out.
+Print Assumptions C29_verification_sound.
 Print Assumptions C29_search_oracle_sound.
 Print Assumptions C29_history_oracle_sound.
 Print Assumptions C29_model_traces_alive.
